@@ -688,3 +688,235 @@ func ruleWatermark(c *Ctx, rule string, fn *ssa.Function) {
 		c.und(rule, funcName(fn)+"/invalid-letter-watermark", fn.Pos(), "no skipped-letter branch found")
 	}
 }
+
+// ---- dpstep: a DP transition pairs the predecessor cell with the letters it consumes ----
+
+// ruleDPStep: wherever a score-matrix entry la[...] is added to entries of
+// the DP table, the predecessor offset and the letters scored agree: the cell
+// one row up (p-c) goes with a reference letter only (a[r][gap]), the cell one
+// column left (p-1) with a query letter only (a[gap][q]), the diagonal cell
+// (p-c-1) with both (a[r][q]). This holds for the fill recurrences and for
+// the traceback tests alike. Any other pairing computes (or follows) a
+// different recurrence and misses the optimum for some input.
+func ruleDPStep(c *Ctx, rule string, fns []*ssa.Function) {
+	alphaPath := modPath + "/alphabet"
+	for _, fn := range fns {
+		if len(fn.Params) < 3 {
+			continue
+		}
+		ref, qry := fn.Params[1], fn.Params[2]
+		// the flattened matrix: the local []int that is indexed by letter indices
+		isLIV := func(v ssa.Value) (role string) {
+			u, ok := v.(*ssa.UnOp)
+			if !ok || u.Op != token.MUL {
+				return ""
+			}
+			ia, ok := u.X.(*ssa.IndexAddr)
+			if !ok || !isNamed(ia.X.Type(), alphaPath, "Index") {
+				return ""
+			}
+			switch seqBase(ia.Index) {
+			case ssa.Value(ref):
+				return "r"
+			case ssa.Value(qry):
+				return "q"
+			}
+			return ""
+		}
+		var lettersOf func(v ssa.Value, d int) (r, q bool, any bool)
+		lettersOf = func(v ssa.Value, d int) (bool, bool, bool) {
+			if d > 6 {
+				return false, false, false
+			}
+			if role := isLIV(v); role != "" {
+				return role == "r", role == "q", true
+			}
+			if bo, ok := v.(*ssa.BinOp); ok && (bo.Op == token.ADD || bo.Op == token.MUL) {
+				r1, q1, a1 := lettersOf(bo.X, d+1)
+				r2, q2, a2 := lettersOf(bo.Y, d+1)
+				return r1 || r2, q1 || q2, a1 || a2
+			}
+			return false, false, false
+		}
+		// an la load: load of IndexAddr whose index contains letter indices and whose base is not an alphabet.Index
+		laLoad := func(v ssa.Value) (r, q, ok bool) {
+			u, isU := v.(*ssa.UnOp)
+			if !isU || u.Op != token.MUL {
+				return
+			}
+			ia, isIA := u.X.(*ssa.IndexAddr)
+			if !isIA || isNamed(ia.X.Type(), alphaPath, "Index") {
+				return
+			}
+			r, q, any := lettersOf(ia.Index, 0)
+			return r, q, any
+		}
+		// table load: load of table[idx] or table[idx][layer] with idx = p - k*c - m
+		type off struct{ dr, dq int64 }
+		tableOff := func(v ssa.Value) (off, bool) {
+			u, isU := v.(*ssa.UnOp)
+			if !isU || u.Op != token.MUL {
+				return off{}, false
+			}
+			ia, isIA := u.X.(*ssa.IndexAddr)
+			if !isIA {
+				return off{}, false
+			}
+			if inner, ok := ia.X.(*ssa.IndexAddr); ok { // table[idx][layer]
+				ia = inner
+			}
+			if _, _, any := lettersOf(ia.Index, 0); any {
+				return off{}, false
+			}
+			// decompose idx
+			var base ssa.Value
+			var cTerms, kTerm int64
+			var cVal ssa.Value
+			okDec := true
+			var dec func(x ssa.Value, sign int64, d int)
+			dec = func(x ssa.Value, sign int64, d int) {
+				if d > 6 {
+					okDec = false
+					return
+				}
+				if k, ok := constIntVal(x); ok {
+					kTerm += sign * k
+					return
+				}
+				if cVal != nil && x == cVal {
+					cTerms += sign
+					return
+				}
+				if bo, ok := x.(*ssa.BinOp); ok {
+					switch bo.Op {
+					case token.SUB:
+						dec(bo.X, sign, d+1)
+						dec(bo.Y, -sign, d+1)
+						return
+					case token.ADD:
+						// p itself is i*c + j
+						if m, ok := bo.X.(*ssa.BinOp); ok && m.Op == token.MUL && base == nil && sign == 1 {
+							base, cVal = bo, m.Y
+							return
+						}
+						dec(bo.X, sign, d+1)
+						dec(bo.Y, sign, d+1)
+						return
+					}
+				}
+				if cVal != nil && x == cVal {
+					cTerms += sign
+					return
+				}
+				if base == nil && sign == 1 {
+					base = x
+					return
+				}
+				okDec = false
+			}
+			dec(ia.Index, 1, 0)
+			// only cells addressed relative to p = i*c + j are DP transitions; border
+			// initialisation (table[j+1], table[(i-1)*c], ...) is not
+			if !okDec || base == nil || cVal == nil {
+				return off{}, false
+			}
+			return off{-cTerms, -kTerm}, true
+		}
+		var offsOf func(v ssa.Value, d int) []off
+		offsOf = func(v ssa.Value, d int) []off {
+			if d > 6 {
+				return nil
+			}
+			if o, ok := tableOff(v); ok {
+				return []off{o}
+			}
+			switch x := v.(type) {
+			case *ssa.BinOp:
+				if x.Op == token.ADD {
+					return append(offsOf(x.X, d+1), offsOf(x.Y, d+1)...)
+				}
+			case *ssa.Call:
+				if g := x.Call.StaticCallee(); g != nil && g.Pkg == fn.Pkg {
+					var out []off
+					for _, a := range x.Call.Args {
+						out = append(out, offsOf(a, d+1)...)
+					}
+					return out
+				}
+			}
+			return nil
+		}
+		var lasOf func(v ssa.Value, d int) [][2]bool
+		lasOf = func(v ssa.Value, d int) [][2]bool {
+			if d > 6 {
+				return nil
+			}
+			if r, q, ok := laLoad(v); ok {
+				return [][2]bool{{r, q}}
+			}
+			if bo, ok := v.(*ssa.BinOp); ok && bo.Op == token.ADD {
+				return append(lasOf(bo.X, d+1), lasOf(bo.Y, d+1)...)
+			}
+			return nil
+		}
+		n := 0
+		check := func(pos token.Pos, x, y ssa.Value) {
+			for _, pair := range [][2]ssa.Value{{x, y}, {y, x}} {
+				offs, las := offsOf(pair[0], 0), lasOf(pair[1], 0)
+				if len(offs) == 0 || len(las) == 0 {
+					continue
+				}
+				for _, o := range offs {
+					for _, l := range las {
+						n++
+						key := fmt.Sprintf("%s/transition#%d", funcName(fn), n)
+						wantR, wantQ := o.dr == 1, o.dq == 1
+						if (o.dr == 0 || o.dr == 1) && (o.dq == 0 || o.dq == 1) && wantR == l[0] && wantQ == l[1] && (wantR || wantQ) {
+							c.ok(rule, key, pos, fmt.Sprintf("predecessor (-%d rows, -%d columns) scored with %s", o.dr, o.dq, lettersName(l)))
+						} else {
+							c.bad(rule, key, pos, fmt.Sprintf("a table cell %d row(s) up and %d column(s) left is combined with the matrix entry for %s: the step consumes other letters than it scores, so the table no longer holds optimal alignment scores (or the traceback follows moves the fill never made)", o.dr, o.dq, lettersName(l)))
+						}
+					}
+				}
+			}
+		}
+		for _, b := range fn.Blocks {
+			for _, ins := range b.Instrs {
+				switch x := ins.(type) {
+				case *ssa.BinOp:
+					if x.Op == token.ADD {
+						// only maximal sums: skip if this ADD feeds another ADD
+						feeds := false
+						for _, r := range *x.Referrers() {
+							if bo, ok := r.(*ssa.BinOp); ok && bo.Op == token.ADD {
+								feeds = true
+							}
+						}
+						if !feeds {
+							check(x.Pos(), x.X, x.Y)
+						}
+					}
+				case *ssa.Call:
+					if g := x.Call.StaticCallee(); g != nil && g.Pkg == fn.Pkg && g.Name() == "add" && len(x.Call.Args) == 2 {
+						check(x.Pos(), x.Call.Args[0], x.Call.Args[1])
+					}
+				}
+			}
+		}
+		if n == 0 {
+			c.und(rule, funcName(fn)+"/transitions", fn.Pos(), "no DP transition (table cell + matrix entry) recognised")
+		}
+	}
+}
+
+func lettersName(l [2]bool) string {
+	switch {
+	case l[0] && l[1]:
+		return "a reference and a query letter (a[r][q])"
+	case l[0]:
+		return "a reference letter against the gap (a[r][gap])"
+	case l[1]:
+		return "a query letter against the gap (a[gap][q])"
+	}
+	return "no letter"
+}
